@@ -279,8 +279,8 @@ static int in_child(int (*fn)(const Case&), const Case& c, const char* errname) 
   pid_t pid = fork();
   if (pid == 0) {
     std::string errfile = c.dir + "/" + errname;
-    if (!freopen(errfile.c_str(), "w", stderr)) {
-    }
+    if (freopen(errfile.c_str(), "w", stderr))
+      setvbuf(stderr, nullptr, _IONBF, 0);  // the child leaves through _exit
     int rc = fn(c);
     fflush(stdout);
     _exit(rc);
